@@ -255,7 +255,12 @@ extern MPT_INTERFACE(metatype) *mpt_meta_buffer(const MPT_STRUCT(array) *a)
 	
 	m->s = s;
 	if (a) {
-		mpt_array_clone(&m->s._a, a);
+		/* buffer reference may be refused */
+		if (mpt_array_clone(&m->s._a, a) < 0) {
+			free(m);
+			errno = EAGAIN;
+			return 0;
+		}
 		if (bufferReset(&m->_it) < 0) {
 			bufferUnref(&m->_mt);
 			errno = EINVAL;
@@ -360,7 +365,12 @@ extern MPT_INTERFACE(metatype) *mpt_meta_arguments(const MPT_STRUCT(array) *a)
 	
 	m->s = s;
 	if (a) {
-		mpt_array_clone(&m->s._a, a);
+		/* buffer reference may be refused */
+		if (mpt_array_clone(&m->s._a, a) < 0) {
+			free(m);
+			errno = EAGAIN;
+			return 0;
+		}
 		if (bufferResetArgs(&m->_it) < 0) {
 			bufferUnref(&m->_mt);
 			errno = EINVAL;
